@@ -256,6 +256,7 @@ def verus_loop_kernels(plan):
         zitems.append(verus_canary("canary_zip", "x: u64", []))
         plan.verus.append(VerusUnit("c01_zip_kernels", verus_file(zitems), zfns, ["canary_zip"]))
         plan.dropped.append(ktrans.zip_kernel_body.__doc__.strip())
+        plan.assumptions.append("matrix-with-vector kernels (Verus): nalgebra's `column_iter_mut().zip(column_iter())` / `row_iter_mut().zip(row_iter())` is ASSUMED to pair line j of `out` with line j of the matrix operand, every line once (exercised on real nalgebra storage by the Kani twins of `sub` and `add`, all forms); a line of a matrix and a vector are modelled as Vec<T>; instantiated at one kind per operator (the macros are generic in T)")
     if fns:
         items.append(verus_canary("canary_loops", "x: u64", []))
         plan.verus.append(VerusUnit("c01_loop_kernels", verus_file(items), fns, ["canary_loops"]))
